@@ -135,6 +135,27 @@ simple("C10", "exploration",
        batches=(8, 16))
 
 
+simple("C08", "fault_enumeration",
+       "the real sensor-monitor step on real hwmon / file sensors (virtual driver: content, ENOENT, EIO, EACCES, empty, non-numeric) and cmd sensors (scripts: exit 1, garbage, "
+       "empty, nan, inf, -Infinity, time-out): exhaustive placement of every fault kind in all sequences up to length 4 (hwmon/file) / 3 (cmd) quick, 6 / 4 thorough, plus seeded random "
+       "60-poll sequences with window sizes 1..100 and readings up to +-2^50 (files) / +-1e300 (cmd); oracle per poll: hull, geometric convergence on repeated readings, bit-identical "
+       "average after a failed / non-finite read; non-trivial = sequence with at least one fault and one good reading; distinct by sequence hash",
+       TRUST_L1 + ["tolerance tau = 4 ulp of the largest magnitude seen (floating point may step one ulp outside the hull)", "readings restricted to |x| <= 1e300 so that x - avg cannot overflow"],
+       batches=(8, 16))
+
+
+simple("C11", "exploration",
+       "seeded random YAML texts taken through viper -> LoadConfig -> Validate: one third assembled only from documented forms (all fan / sensor / curve kinds, both spellings of "
+       "controlAlgorithm, step lists, nested function curves) which must be accepted; two thirds hostile (curve cycles of length 1..8, dangling references, function curves "
+       "without members, unknown function type, steps as list / map / [] / {} / null / singleton, duplicate and empty ids, 0 or 2 backends, controlAlgorithm {} / direct {} / "
+       "direct null / zero PID / maxPwmChangePerCycle <= 0, deprecated controlLoop, hwmon index/channel combinations). Every accepted text is checked against a reference "
+       "(unique ids, one backend, resolvable references, acyclic graph) and instantiated by the daemon's own InitializeObjects / initializeFanControllers on file, cmd and "
+       "fake-hwmon devices, all curves evaluated under 5 sensor states, two control cycles per fan; one child process per batch with the case logged before it runs "
+       "(stack overflow / fatal errors are attributed to it); non-trivial = accepted text that was instantiated, or rejected hostile text; distinct by text hash resp. feature class",
+       TRUST_L1 + ["ids carry a per-case prefix because fan2go's registries are process-global", "prometheus.DefaultRegisterer is replaced per case"],
+       batches=(16, 64), timeout=(900, 3000))
+
+
 def c14(p, tier, work, t0, replay):
     _src, vh = build_vh(work)
     q = tier == "quick"
